@@ -91,7 +91,10 @@ def fmt(v):
 
 
 VALUES = [("5", 5), ("2.5", 2.5), ("-3", -3), ("0", 0), ("40000", 40000), ('"s"', "s"), ('""', ""), ("7.5", 7.5), ("-0.5", -0.5), ("123", 123)]
-SUBS = [("-1", None), ("0", 0), ("1", 1), ("10", 10), ("11", 11), ("1.5", 1), ('"x"', "type"), ("3", 3), ("20", 20)]
+# a subscript is converted to a 16-bit Integer first: values outside -32768..32767 are an OVERFLOW, whatever the bound
+SUBS = [("-1", None), ("0", 0), ("1", 1), ("10", 10), ("11", 11), ("1.5", 1), ('"x"', "type"), ("3", 3), ("20", 20),
+        ("32767", 32767), ("32768", "overflow"), ("40000", "overflow"), ("65535", "overflow"), ("-40000", "overflow"), ("65536", "overflow"),
+        ("-32768", None)]
 
 
 def gen_session(rng, names=None, length=None):
@@ -136,6 +139,9 @@ def gen_session(rng, names=None, length=None):
                 if val == "type":
                     err = "type"
                     break
+                if val == "overflow":
+                    err = "overflow"
+                    break
                 if val is None:
                     err = "subscript"
                     break
@@ -169,6 +175,12 @@ def gen_session(rng, names=None, length=None):
         elif r < 0.8:
             nd = rng.choice([1, 1, 2])
             bounds = [rng.choice([0, 1, 3, 10, 20]) for _ in range(nd)]
+            if rng.random() < 0.08:
+                # a bound outside the 16-bit range is an OVERFLOW and dimensions nothing
+                bounds[rng.randrange(nd)] = rng.choice([32768, 40000, 65535])
+                stmts.append("DIM %s(%s)" % (name, ",".join(str(b) for b in bounds)))
+                expect.append(("any",) if name in poisoned else ("err", ERR["redim"]) if name in ref.dims else ("err", ERR["overflow"]))
+                continue
             stmts.append("DIM %s(%s)" % (name, ",".join(str(b) for b in bounds)))
             if name in poisoned:
                 expect.append(("any",))
